@@ -180,6 +180,13 @@ Definition pr_leaf (b : lbase) (v : sval) : out text :=
   end.
 Definition pr_text (b : lbase) (v : sval) : text := match pr_leaf b v with Ok t => t | _ => [] end.
 
+(** _to_schema_literal: how a facet, enumeration or default value is written into the schema *)
+Definition schema_text (b : lbase) (v : sval) : text :=
+  match b, v with
+  | BDec, SDec d => dec_print (if schema_decimal_plain then DecPlain else decimal_printer) d
+  | _, _ => pr_text b v
+  end.
+
 (** decimal.Decimal(s) for the finite plain / exponent literals (underscores, NaN and
     Infinity are outside the modelled universe and read as a syntax error here) *)
 Definition py_decimal (s : text) : option decimal :=
@@ -222,7 +229,7 @@ Definition table_facet (b : lbase) (f : facets) (e : rattr * ftag) : list (ftag 
   let '(a, tag) := e in
   match a with
   | A_gt | A_ge | A_lt | A_le =>
-      match attr_value f a with Some v => [(tag, pr_text b v)] | None => [] end
+      match attr_value f a with Some v => [(tag, schema_text b v)] | None => [] end
   | A_pattern => match fa_pattern f with Some (p, _) => [(tag, p)] | None => [] end
   | A_total_digits => match fa_total_digits f with Some n => [(tag, str_int n)] | None => [] end
   | A_fraction_digits => match fa_fraction_digits f with Some n => [(tag, str_int n)] | None => [] end
@@ -251,7 +258,7 @@ Definition writer_of (b : lbase) : writer :=
 (** simple_get_restriction_tag, then the writer of the class *)
 Definition restriction_of (st : stype) : list (ftag * text) :=
   let b := st_base st in let f := st_fa st in
-  map (fun v => (enumeration_tag, pr_text b v)) (fa_values f)
+  map (fun v => (enumeration_tag, schema_text b v)) (fa_values f)
   ++ match writer_of b with
      | WSimple => []
      | WUnicode => unicode_facets f
@@ -279,7 +286,7 @@ Definition edecl_of (U : univ) (name : text) (t : dty) (mn : Z) (mx : ext) (nill
 Definition leaf_base_of (t : dty) : option lbase := match t with DLeaf st => Some (st_base st) | _ => None end.
 Definition default_text (f : fld) : option text :=
   match fl_default f, leaf_base_of (fl_ty f) with
-  | Some v, Some b => Some (pr_text b v)
+  | Some v, Some b => Some (schema_text b v)
   | _, _ => None
   end.
 Definition fld_edecl (U : univ) (f : fld) : edecl :=
